@@ -5,13 +5,15 @@ HOOKS = {
     "guard": "--cfg mmtk_verif",
     "enable": "RUSTFLAGS='--cfg mmtk_verif' (set by /verif/check for cargo kani and for the native replayer); all hooks are add-only re-exports/constructors/accessors under #[cfg(mmtk_verif)]",
     "baseline_off_cmd": "cd /repo && cargo test --workspace --no-fail-fast --offline",
-    "source_commits": [],
+    "source_commits": ["6f482cd"],
     "add_only": True,
 }
 
 NOTES = ("Technique: solver-based checking of the real code. Every claimed property is decided by Kani/CBMC harnesses that "
          "symbolically execute the compiled mmtk-core functions; bounds and everything outside them are stated per property in "
-         "DESIGN.md and in each evidence file. Exit 2 = inconclusive (never reported as held).")
+         "DESIGN.md and in each evidence file. Exit 2 = inconclusive (never reported as held). Known findings / fixed defects: "
+         "/verif/known_findings.json (read-only at run time; 'fixed' entries suppress nothing). Repaired in /repo: b72becc "
+         "'fix: header metadata compare_exchange returns the field's previous value' (C23, DESIGN.md section 6).")
 
 COMMON_ASSUME = [
     "x86-64 Linux, 64-bit layout; dev-profile semantics under Kani (debug assertions and overflow checks on)",
